@@ -18,16 +18,16 @@
 // Typical use:
 //
 //	u := blocks.GenUniverse(rnd, blocks.GenOptions{})                    // metric schemas + series pools
-//	blks, shape := u.GenFile(rnd, blocks.FileOptions{Seq: n, NoSilentBucket: true})
+//	blks, shape := u.GenFile(rnd, blocks.FileOptions{Seq: n})
 //	err := blocks.FlushFile(family, blks)                                 // one new level-0 table
 //	ref.Add(n, blks)                                                      // naive cell map
 //	snap := family.GetSnapshot(); view, err := blocks.ReadFamily(snap, blocks.Options{}, nil); snap.Close()
 //	// view.Blocks[metric][i].Cells[CellKey{Series, Field, Slot}] vs blocks.Aggregate(type, blocks.Values(ref.Cells[cell]))
 //
-// NOTE for engines that run the MetricDataMerger (compaction AND rollup use the same merger/dataScanner): a
-// single-field block in which all series of one series bucket (high 16 bits of the series id) were flushed with nil
-// data breaks the merge path (known finding C03/empty-series-bucket/*). FileOptions.NoSilentBucket keeps that shape
-// out of generated files; FileShape.SilentBuckets counts it when it is allowed.
+// NOTE on the "silent bucket" shape: a single-field block in which all series of one series bucket (high 16 bits of
+// the series id) were flushed with nil data has a bucket without bytes. It used to break the merge path shared by
+// compaction and rollup (finding C03/empty-series-bucket, fixed by 0219dfd), so it is a shape worth generating:
+// GenFile produces it unless FileOptions.NoSilentBucket is set; FileShape.SilentBuckets counts it.
 //
 // Field data is loaded ONE FIELD AT A TIME (StorageExecuteCtx.Fields holds a single meta), so the known
 // reader defect of property C11 (metricReader.readSeriesData maps a single-field block to query field
